@@ -662,8 +662,8 @@ func (f *File) Write(p []byte) (n int, err error) {
 		return 0, err
 	}
 
-	// With `O_APPEND`, every write goes to the end of the file
-	if f.flags.Append {
+	// With `O_APPEND`, every write goes to the end of the file (a zero-length write has no effect at all)
+	if f.flags.Append && len(p) > 0 {
 		if _, err := f.writeBuf.Seek(0, io.SeekEnd); err != nil {
 			return 0, err
 		}
@@ -727,8 +727,8 @@ func (f *File) WriteString(s string) (ret int, err error) {
 		return 0, err
 	}
 
-	// With `O_APPEND`, every write goes to the end of the file
-	if f.flags.Append {
+	// With `O_APPEND`, every write goes to the end of the file (a zero-length write has no effect at all)
+	if f.flags.Append && len(s) > 0 {
 		if _, err := f.writeBuf.Seek(0, io.SeekEnd); err != nil {
 			return 0, err
 		}
